@@ -146,6 +146,17 @@ def run_learner(learner, kw, X, seed):
         with np.errstate(all="ignore"):
             if learner == "fit":
                 c = BinaryCNet(scope=list(range(X.shape[1])))
+                if seed % 3 == 0:
+                    # a second-hand object: fitted first on data with the OPPOSITE root decision (a constant matrix never splits;
+                    # a large balanced one with a low entropy threshold does), queried, then fitted on the data of this case
+                    m0, n0 = X.shape
+                    first = np.zeros((max(m0, 8), n0), dtype=np.float32) if (seed // 3) % 2 == 0 else \
+                        (np.random.RandomState(seed % 1000).rand(200, n0) < 0.5).astype(np.float32)
+                    try:
+                        c.fit(first, **dict(kw, min_mean_entropy=0.0) if (seed // 3) % 2 else kw)
+                        c.log_likelihood(first[:2])
+                    except Exception:
+                        c = BinaryCNet(scope=list(range(X.shape[1])))
                 c.fit(X.copy(), **kw)
             elif learner == "bd":
                 c = learn_cnet_bd(X.copy(), **kw)
@@ -189,6 +200,22 @@ def rand_cnet(rs, scope, depth=0):
 # ------------------------------------------------------------------ object -> model literal
 def f32frac(x):
     return Fraction(float(np.float32(x)))
+
+
+def shape_problem(node, path="root"):
+    """a learned node is EITHER a leaf (a Chow-Liu tree and nothing else) OR a cut (variable, two weights, two children and no
+    tree): anything else is state left over from somewhere else (log_likelihood would silently read only part of it)."""
+    leaf = node.clt is not None
+    kids = list(node.children or [])
+    if leaf and (kids or node.or_id is not None or node.weights is not None):
+        return dict(at=path, what="a leaf (clt set) that also carries a cut", or_id=node.or_id, n_children=len(kids))
+    if not leaf and not (len(kids) == 2 and node.or_id is not None and node.weights is not None and len(node.weights) == 2):
+        return dict(at=path, what="neither a leaf nor a complete cut", or_id=node.or_id, n_children=len(kids))
+    for i, k in enumerate(kids):
+        b = shape_problem(k, f"{path}.{i}")
+        if b:
+            return b
+    return None
 
 
 def extract(node, exact):
@@ -319,6 +346,11 @@ def main(tier, seed, replay=None):
                 learner, kw = gen_config(rs, X, learner, allow_one_cut=(one_cut is None))
                 info.update(learner=learner, params=kw, regime=regime, data=X.astype(int).tolist(), clt_seed=seed + i)
                 node = run_learner(learner, kw, X, seed + i)
+                sp_ = shape_problem(node)
+                if sp_ is not None:
+                    dist["shape_problems"] = dist.get("shape_problems", 0) + 1
+                    if dist["shape_problems"] <= 3:
+                        rep.violation(dict(info, kind="learned-network-is-not-a-clean-OR-tree", problem=sp_), True)
                 scope = list(range(X.shape[1]))
                 dist["data_rows"] = [min(dist["data_rows"][0], len(X)), max(dist["data_rows"][1], len(X))]
             n = len(scope)
